@@ -1,9 +1,10 @@
 (* Wire/Push.v -- script tokens, push-data encoding (lbry/wallet/script.py push_data) and the
    tokenizer (token_producer / read_data over BCDataStream), including its behaviour on
    truncated input:
-     * BytesIO.read(n) silently returns fewer bytes at the end of the stream,
-     * _read_struct returns None on an exhausted stream (then read(None) returns b''),
-     * _read_struct raises struct.error when 1..size-1 bytes are left.
+     * a push whose declared length runs past the end of the script is an error (read_data compares
+       len(data) with the declared size; BytesIO.read alone would silently return fewer bytes),
+     * a missing length field after OP_PUSHDATA1/2/4 (_read_struct returns None) is the same error,
+     * _read_struct raises struct.error when 1..size-1 bytes of a length field are left.
    Definitions first, then the library lemmas (fuel independence, tokenize over push). No axioms. *)
 From Coq Require Import NArith ZArith List Bool Lia.
 From Coq.Strings Require Import Byte.
@@ -73,15 +74,19 @@ Definition read_uint (w : nat) (s : bytes) : rd :=
          if (length h <? w)%nat then RdErr else RdVal (le_decode h) (skipn w s)
   end.
 
-(* read_data; None = struct.error *)
+(* stream.read(size) followed by the check len(data) == size *)
+Definition take_exact (s : bytes) (n : N) : option (bytes * bytes) :=
+  let (a, c) := take s n in if N.of_nat (length a) =? n then Some (a, c) else None.
+
+(* read_data; None = struct.error (partial or missing length field, or data running past the end) *)
 Definition read_data (t : N) (s : bytes) : option (bytes * bytes) :=
-  if t <? OP_PUSHDATA1 then Some (take s t)
+  if t <? OP_PUSHDATA1 then take_exact s t
   else
     let w := if t =? OP_PUSHDATA1 then 1%nat else if t =? OP_PUSHDATA2 then 2%nat else 4%nat in
     match read_uint w s with
-    | RdNone => Some ([], [])
+    | RdNone => None
     | RdErr => None
-    | RdVal n rest => Some (take rest n)
+    | RdVal n rest => take_exact rest n
     end.
 
 Inductive tok_error := StructError | TokFuel.
@@ -147,6 +152,15 @@ Proof.
     rewrite N.pred_succ, IH. reflexivity.
 Qed.
 
+Lemma take_exact_app d r : take_exact (d ++ r) (N.of_nat (length d)) = Some (d, r).
+Proof. unfold take_exact. rewrite take_app_exact, N.eqb_refl. reflexivity. Qed.
+
+Lemma take_exact_rest s n a c : take_exact s n = Some (a, c) -> (length c <= length s)%nat.
+Proof.
+  unfold take_exact. pose proof (take_length_rest s n) as L. destruct (take s n) as [x y].
+  destruct (N.of_nat (length x) =? n); [|discriminate]. intro H. inversion H; subst. exact L.
+Qed.
+
 Lemma take_spec s : forall n, take s n = (firstn (N.to_nat n) s, skipn (N.to_nat n) s).
 Proof.
   induction s as [|b r IH]; intro n; cbn [take].
@@ -167,11 +181,9 @@ Qed.
 Lemma read_data_rest t s d r' : read_data t s = Some (d, r') -> (length r' <= length s)%nat.
 Proof.
   unfold read_data. destruct (t <? OP_PUSHDATA1).
-  - intro H. inversion H. pose proof (take_length_rest s t) as L. rewrite H1 in L. exact L.
+  - apply take_exact_rest.
   - destruct (read_uint _ s) as [| |n rest] eqn:E; try discriminate.
-    + intro H. inversion H. simpl. lia.
-    + intro H. inversion H. apply read_uint_rest in E.
-      pose proof (take_length_rest rest n) as L. rewrite H1 in L. simpl in L. lia.
+    intro H. apply take_exact_rest in H. apply read_uint_rest in E. lia.
 Qed.
 
 (* fuel independence: any fuel >= length gives the same answer *)
@@ -262,11 +274,11 @@ Qed.
 
 Definition read_sized (w : nat) (s : bytes) : option (bytes * bytes) :=
   match read_uint w s with
-  | RdNone => Some ([], [])
+  | RdNone => None
   | RdErr => None
-  | RdVal n rest => Some (take rest n)
+  | RdVal n rest => take_exact rest n
   end.
-Lemma read_data_direct t s : t < 76 -> read_data t s = Some (take s t).
+Lemma read_data_direct t s : t < 76 -> read_data t s = take_exact s t.
 Proof. intro H. unfold read_data, OP_PUSHDATA1. apply N.ltb_lt in H. rewrite H. reflexivity. Qed.
 Lemma read_data_pd1 s : read_data 76 s = read_sized 1 s.
 Proof. reflexivity. Qed.
@@ -278,7 +290,7 @@ Lemma read_sized_encode w n d r : (0 < w)%nat -> n < 256 ^ N.of_nat w -> n = N.o
   read_sized w (le_encode w n ++ d ++ r) = Some (d, r).
 Proof.
   intros Hw Hn E. unfold read_sized. rewrite read_uint_encode by assumption.
-  rewrite E, take_app_exact. reflexivity.
+  rewrite E, take_exact_app. reflexivity.
 Qed.
 
 (* reading a header written by push_header gives back the size and leaves the stream after it *)
@@ -293,7 +305,7 @@ Proof.
   destruct (n <? OP_PUSHDATA1) eqn:E1.
   - apply N.ltb_lt in E1. unfold OP_PUSHDATA1 in E1. rewrite byte_of_N_small by lia. split.
     + unfold is_push_data_token, OP_PUSHDATA4. apply andb_true_iff. split; apply N.leb_le; lia.
-    + rewrite read_data_direct by exact E1. cbn [app]. rewrite Hn, take_app_exact. reflexivity.
+    + rewrite read_data_direct by exact E1. cbn [app]. rewrite Hn, take_exact_app. reflexivity.
   - apply N.ltb_ge in E1. unfold OP_PUSHDATA1 in E1.
     destruct (n <=? 255) eqn:E2; [|destruct (n <=? 65535) eqn:E3].
     + apply N.leb_le in E2. unfold OP_PUSHDATA1. rewrite byte_of_N_small by lia. split; [reflexivity|].
@@ -360,7 +372,7 @@ Proof.
   - unfold OP_PUSHDATA1 in H. rewrite byte_of_N_small by lia.
     replace (is_push_data_token n) with true
       by (symmetry; unfold is_push_data_token, OP_PUSHDATA4; apply andb_true_iff; split; apply N.leb_le; lia).
-    rewrite read_data_direct by exact H. rewrite Hn, take_app_exact. reflexivity.
+    rewrite read_data_direct by exact H. rewrite Hn, take_exact_app. reflexivity.
   - unfold OP_PUSHDATA1. rewrite byte_of_N_small by lia.
     change (is_push_data_token 76) with true. cbv iota. rewrite read_data_pd1.
     change (byte_of_N n :: d ++ r) with (le_encode 1 n ++ d ++ r).
@@ -372,3 +384,80 @@ Proof.
     change (is_push_data_token 78) with true. cbv iota. rewrite read_data_pd4.
     rewrite read_sized_encode; [reflexivity | lia | simpl; lia | exact Hn].
 Qed.
+
+(* ---- every data token stands for a complete push: header of one of the four forms, then exactly
+        the declared number of bytes (nothing is read past the end of the script) ---- *)
+Lemma take_exact_split s n a c : take_exact s n = Some (a, c) -> s = a ++ c /\ N.of_nat (length a) = n.
+Proof.
+  unfold take_exact. rewrite take_spec.
+  destruct (N.of_nat (length (firstn (N.to_nat n) s)) =? n) eqn:E; [|discriminate].
+  intro H. inversion H; subst. split; [symmetry; apply firstn_skipn | apply N.eqb_eq; exact E].
+Qed.
+
+Lemma read_uint_split w s v rest : read_uint w s = RdVal v rest ->
+  exists h, s = h ++ rest /\ length h = w /\ v = le_decode h.
+Proof.
+  unfold read_uint. destruct s as [|b r]; [discriminate|].
+  destruct (length (firstn w (b :: r)) <? w)%nat eqn:E; [discriminate|].
+  intro H. inversion H; subst. exists (firstn w (b :: r)).
+  split; [symmetry; apply firstn_skipn|]. split; [|reflexivity].
+  apply Nat.ltb_ge in E. pose proof (firstn_le_length w (b :: r)). lia.
+Qed.
+
+Theorem read_data_full_push t s d r : is_push_data_token t = true -> read_data t s = Some (d, r) ->
+  exists h, push_form (byte_of_N t :: h) (N.of_nat (length d)) /\ s = h ++ d ++ r.
+Proof.
+  unfold is_push_data_token, OP_PUSHDATA4. intro Ht. apply andb_true_iff in Ht as [H1 H2].
+  apply N.leb_le in H1. apply N.leb_le in H2. unfold read_data, OP_PUSHDATA1, OP_PUSHDATA2.
+  destruct (N.ltb_spec t 76) as [Hlt|Hge].
+  - intro H. apply take_exact_split in H as [-> L]. exists []. split; [|reflexivity].
+    rewrite L. constructor. exact Hlt.
+  - assert (W : forall w, (0 < w)%nat ->
+               match read_uint w s with RdNone => None | RdErr => None | RdVal n rest => take_exact rest n end = Some (d, r) ->
+               exists h, length h = w /\ le_decode h = N.of_nat (length d) /\ s = h ++ d ++ r).
+    { intros w Hw H. destruct (read_uint w s) as [| |n rest] eqn:E; try discriminate.
+      apply read_uint_split in E as (h & -> & Lh & ->). apply take_exact_split in H as [-> L].
+      exists h. auto. }
+    destruct (t =? 76) eqn:E1; [|destruct (t =? 77) eqn:E2].
+    + apply N.eqb_eq in E1. subst t. intro H. apply W in H as (h & Lh & Dh & ->); [|lia].
+      exists h. split; [|reflexivity].
+      destruct h as [|b [|? ?]]; try discriminate. cbn [le_decode] in Dh.
+      rewrite <- Dh. replace (N_of_byte b + 256 * 0) with (N_of_byte b) by lia.
+      pose proof (pf_1 (N_of_byte b) (N_of_byte_lt b)) as F. rewrite byte_of_N_of_byte in F. exact F.
+    + apply N.eqb_eq in E2. subst t. intro H. apply W in H as (h & Lh & Dh & ->); [|lia].
+      exists h. split; [|reflexivity]. rewrite <- Dh.
+      pose proof (le_decode_lt h) as B. rewrite Lh in B.
+      pose proof (pf_2 (le_decode h) B) as F. rewrite <- Lh in F at 1. rewrite le_encode_decode in F. exact F.
+    + apply N.eqb_neq in E1. apply N.eqb_neq in E2. assert (t = 78) by lia. subst t.
+      intro H. apply W in H as (h & Lh & Dh & ->); [|lia].
+      exists h. split; [|reflexivity]. rewrite <- Dh.
+      pose proof (le_decode_lt h) as B. rewrite Lh in B.
+      pose proof (pf_4 (le_decode h) B) as F. rewrite <- Lh in F at 1. rewrite le_encode_decode in F. exact F.
+Qed.
+
+(* consequence for whole scripts: the bytes of all tokens add up to the script -- no datum is cut short *)
+Fixpoint tok_weight_ok (toks : list token) (s : bytes) : Prop :=
+  match toks with
+  | [] => s = []
+  | TData d :: r => exists h rest, push_form h (N.of_nat (length d)) /\ s = h ++ d ++ rest /\ tok_weight_ok r rest
+  | _ :: r => exists b rest, s = b :: rest /\ tok_weight_ok r rest
+  end.
+
+Lemma tok_fuel_complete : forall f s toks, tok_fuel f s = TokOk toks -> tok_weight_ok toks s.
+Proof.
+  induction f as [|f IH]; intros s toks H.
+  - destruct s; [inversion H; reflexivity | discriminate].
+  - destruct s as [|b r]; [inversion H; reflexivity|]. cbn [tok_fuel] in H.
+    destruct (is_push_data_token (N_of_byte b)) eqn:P.
+    + destruct (read_data (N_of_byte b) r) as [[d r']|] eqn:E; [|discriminate].
+      destruct (tok_fuel f r') as [l|e] eqn:T; [|discriminate]. inversion H; subst.
+      destruct (read_data_full_push _ _ _ _ P E) as (h & F & ->).
+      rewrite byte_of_N_of_byte in F. cbn [tok_weight_ok].
+      exists (b :: h), r'. split; [exact F|]. split; [reflexivity | apply IH; exact T].
+    + destruct (is_small_integer (N_of_byte b));
+        destruct (tok_fuel f r) as [l|e] eqn:T; try discriminate; inversion H; subst;
+        cbn [tok_weight_ok]; exists b, r; (split; [reflexivity | apply IH; exact T]).
+Qed.
+
+Theorem tokenize_complete s toks : tokenize s = TokOk toks -> tok_weight_ok toks s.
+Proof. apply tok_fuel_complete. Qed.
